@@ -111,6 +111,19 @@ def glue_inlines(rng, res):
     code span or escape may get a trailing '!' ("wow!`x`"), which must stay a literal '!'."""
     for i in range(1, len(res)):
         prev, cur = res[i - 1], res[i]
+        # emphasis / strong emphasis (either delimiter character) written directly after a construct that ENDS IN ASCII
+        # PUNCTUATION: a code span, an autolink, raw inline HTML, an inline link, or a word followed by a punctuation mark
+        # (among them the symbols $ + = ^ that Unicode does not class as punctuation but the specification does).  The
+        # opening run is then left-flanking and not right-flanking (punctuation before, a letter after: the content of a
+        # nested run begins and ends with a word), so the reading is beyond doubt for `*` and for `_`.
+        if cur.kind in ('emph', 'strong') and prev.kind in ('text', 'code', 'autolink', 'rawhtml', 'link') and not getattr(prev, 'glue_tail', False):
+            if rng.random() < 0.3 and cur.kids and cur.kids[0].kind == 'text' and cur.kids[0].s[0].isalnum():
+                if prev.kind == 'text':
+                    if not prev.s[-1].isalnum():
+                        continue
+                    prev.s = prev.s + rng.choice('$+=^).:;,"')
+                cur.glue = True
+            continue
         if cur.kind not in ('code', 'escape', 'link', 'autolink') or prev.kind not in ('text', 'code', 'escape', 'link', 'autolink'):
             continue
         if rng.random() >= 0.35:
